@@ -2,6 +2,7 @@ package main
 
 import (
 	"fmt"
+	"os"
 	"go/types"
 	"sort"
 	"strings"
@@ -574,6 +575,10 @@ func (ex *Exec) postconditions() {
 				unsup("%s:%d: ensures[%s]: %v", e.File, e.Line, e.Label, err)
 			}
 			parts = append(parts, fmt.Sprintf("(=> %s %s)", r.pc, t))
+			if os.Getenv("GOVC_SPLIT") != "" {
+				g.obls = append(g.obls, &Obligation{Name: fmt.Sprintf("%s/post/%s@b%d", g.curFunc, e.Label, r.blk.Index), Func: g.curFunc, Kind: "post", Label: e.Label, Goal: t, PC: r.pc,
+					NFacts: len(g.facts), Src: e.Src, g: g, Expect: "unsat", Props: con.Props})
+			}
 		}
 		goal := "true"
 		if len(parts) == 1 {
